@@ -21,7 +21,7 @@ import n09_stat as S
 
 SIGMA_ACT = ["aposteriori", "apriori"]
 CONF_PR = [0.5, 0.8, 0.9, 0.95, 0.99, 0.999]
-SIGMA_APR = [0.5, 1.0, 10.0, 25.0]
+SIGMA_APR = [1e-3, 0.5, 1.0, 10.0, 25.0, 1e3]     # the property says: all sigma-apr > 0
 ALGS = gnet.ALGS
 
 LINEAR = ("distance", "s-distance", "dh", "vec", "coord")
@@ -43,18 +43,20 @@ def _c(name, cl, obs, noisy=True, fixed_err=0.0):
 
 
 def template(name):
-    if name == "T2":
-        # 3 fixed + 2 new points on {0,100,200}^2, directions, distances, an angle
+    if name in ("T2", "T2H"):
+        # 3 fixed + 2 new points on {0,100,200}^2, directions, distances, an angle; all stdevs of a
+        # cluster differ.  T2H: the same network with 0.004 .. 0.016 mm / 0.07 .. 0.15 cc precision
+        k = 1e-3 if name == "T2H" else 1.0
         pts = [Pt("A", 0, 0, xy="fix"), Pt("B", 0, 200, xy="fix"), Pt("C", 200, 100, xy="fix"),
                Pt("P", 100, 100, xy="adj"), Pt("Q", 100, 200, xy="adj")]
         cand = [
-            _c("dPA", "sP", Obs("direction", "P", "A", stdev=10.0)),
-            _c("dPB", "sP", Obs("direction", "P", "B", stdev=10.0)),
-            _c("dPC", "sP", Obs("direction", "P", "C", stdev=10.0)),
-            _c("sAP", "o", Obs("distance", "A", "P", stdev=5.0)),
-            _c("sBQ", "o", Obs("distance", "B", "Q", stdev=5.0)),
-            _c("sCQ", "o", Obs("distance", "C", "Q", stdev=8.0)),
-            _c("aQ", "o", Obs("angle", "Q", bs="B", fs="P", stdev=15.0), noisy=False),
+            _c("dPA", "sP", Obs("direction", "P", "A", stdev=10.0 * k)),
+            _c("dPB", "sP", Obs("direction", "P", "B", stdev=7.0 * k)),
+            _c("dPC", "sP", Obs("direction", "P", "C", stdev=13.0 * k)),
+            _c("sAP", "o", Obs("distance", "A", "P", stdev=5.0 * k)),
+            _c("sBQ", "o", Obs("distance", "B", "Q", stdev=4.0 * k)),
+            _c("sCQ", "o", Obs("distance", "C", "Q", stdev=8.0 * k)),
+            _c("aQ", "o", Obs("angle", "Q", bs="B", fs="P", stdev=15.0 * k), noisy=False),
         ]
         return Template(name, pts, cand)
     if name == "T2F":
@@ -64,14 +66,14 @@ def template(name):
                Pt("P", 100, 100, xy="adj"), Pt("Q", 100, 200, xy="adj")]
         cand = [
             _c("dPA", "sP", Obs("direction", "P", "A", stdev=10.0)),
-            _c("dPB", "sP", Obs("direction", "P", "B", stdev=10.0), noisy=False, fixed_err=-0.5),
-            _c("dPC", "sP", Obs("direction", "P", "C", stdev=10.0), noisy=False, fixed_err=0.5),
+            _c("dPB", "sP", Obs("direction", "P", "B", stdev=7.0), noisy=False, fixed_err=-0.5),
+            _c("dPC", "sP", Obs("direction", "P", "C", stdev=13.0), noisy=False, fixed_err=0.5),
             _c("sAP", "o", Obs("distance", "A", "P", stdev=5.0)),
-            _c("sBQ", "o", Obs("distance", "B", "Q", stdev=5.0), noisy=False, fixed_err=0.7),
+            _c("sBQ", "o", Obs("distance", "B", "Q", stdev=4.0), noisy=False, fixed_err=0.7),
             _c("sCQ", "o", Obs("distance", "C", "Q", stdev=8.0)),
             _c("aQ", "o", Obs("angle", "Q", bs="B", fs="P", stdev=15.0), noisy=False),
             _c("sAB", "o", Obs("distance", "A", "B", stdev=6.0), noisy=False, fixed_err=-0.4),
-            _c("sBC", "o", Obs("distance", "B", "C", stdev=6.0), noisy=False, fixed_err=0.6),
+            _c("sBC", "o", Obs("distance", "B", "C", stdev=6.5), noisy=False, fixed_err=0.6),
             _c("sAC", "o", Obs("distance", "A", "C", stdev=7.0), noisy=False, fixed_err=0.3),
         ]
         return Template(name, pts, cand)
@@ -83,7 +85,7 @@ def template(name):
             _c("h1", "h", Obs("dh", "H1", "N1", stdev=2.0)),
             _c("h2", "h", Obs("dh", "N1", "N2", stdev=3.0)),
             _c("h3", "h", Obs("dh", "N2", "N3", stdev=2.5)),
-            _c("h4", "h", Obs("dh", "N3", "H2", stdev=2.0), noisy=False, fixed_err=0.5),
+            _c("h4", "h", Obs("dh", "N3", "H2", stdev=1.5), noisy=False, fixed_err=0.5),
             _c("h5", "h", Obs("dh", "H1", "N2", stdev=4.0), noisy=False, fixed_err=-0.3),
             _c("h6", "h", Obs("dh", "N1", "N3", stdev=3.5), noisy=False),
         ]
@@ -96,11 +98,11 @@ def template(name):
                Pt("P", 100, 100, 10.0, xy="adj", zs="adj"), Pt("Q", 200, 200, 0.0, xy="adj", zs="adj")]
         cand = [
             _c("sAP", "o", Obs("s-distance", "A", "P", stdev=5.0)),
-            _c("sBP", "o", Obs("s-distance", "B", "P", stdev=5.0)),
+            _c("sBP", "o", Obs("s-distance", "B", "P", stdev=4.0)),
             _c("sCP", "o", Obs("s-distance", "C", "P", stdev=6.0)),
             _c("zAP", "o", Obs("z-angle", "A", "P", stdev=10.0)),
             _c("zBP", "o", Obs("z-angle", "B", "P", stdev=12.0), noisy=False, fixed_err=0.5),
-            _c("sPQ", "o", Obs("s-distance", "P", "Q", stdev=5.0), noisy=False, fixed_err=-0.5),
+            _c("sPQ", "o", Obs("s-distance", "P", "Q", stdev=7.0), noisy=False, fixed_err=-0.5),
             _c("hCQ", "h", Obs("dh", "C", "Q", stdev=3.0), noisy=False),
             _c("vBQ", "v", Obs("vec", "B", "Q"), noisy=False, fixed_err=(0.6, -0.4, 0.8)),
         ]
@@ -119,8 +121,51 @@ def noise_unit(o):
     return o.stdev * 1e-3
 
 
-def build_net(T, subset, signs, params):
-    """subset: sorted tuple of candidate indices; signs: dict cand index -> +1/-1"""
+def passive_obs(T, key, k):
+    """a passive observation for cluster `key` and the point it aims at: the target has no
+    coordinates and cannot be computed (one distance / direction only: 'nc'), or - for height
+    differences and vectors, which would determine it - is listed without fix/adj ('ns')"""
+    pid = "X%d" % k
+    threeD = any(p.zs is not None and p.xy is not None for p in T.points)
+    st = T.cand[[c["cl"] for c in T.cand].index(key)]["obs"]
+    scale = st.stdev / 10.0 if (key == "sP" and st.stdev) else 1.0
+    if key == "sP":
+        o = Obs("direction", "P", pid, stdev=3.0 * (1e-3 if T.name == "T2H" else 1.0), val=123.4567 + k)
+        pt = Pt(pid, None, None, None, xy="adj")
+    elif key == "o":
+        if threeD:
+            o = Obs("s-distance", "A", pid, stdev=2.0, val=77.0 + k)
+            pt = Pt(pid, None, None, None, xy="adj", zs="adj")
+        else:
+            o = Obs("distance", "A", pid, stdev=2.0 * (1e-3 if T.name == "T2H" else 1.0), val=55.0 + k)
+            pt = Pt(pid, None, None, None, xy="adj")
+    elif key == "h":
+        frm = [c["obs"].frm for c in T.cand if c["cl"] == "h"][0]
+        o = Obs("dh", frm, pid, stdev=7.0, val=1.234 + k)
+        pt = Pt(pid)
+    elif key == "v":
+        o = Obs("vec", "B", pid, val=(10.0 + k, 20.0, 3.0))
+        pt = Pt(pid)
+    else:
+        raise KeyError(key)
+    o.passive = True
+    return o, pt
+
+
+def vec_cov(nvec):
+    """band-2 covariance matrix of nvec vectors: VEC_COV blocks plus weak correlations between
+    neighbouring vectors inside the band (the active sub-matrix is what counts)"""
+    n = 3 * nvec
+    def f(i, j):
+        if i // 3 == j // 3: return VEC_COV[i % 3][j % 3]
+        return 1.5 if j - i <= 2 else 0.0
+    return gnet.band_cov(n, 2, f)
+
+
+def build_net(T, subset, signs, params, passive=()):
+    """subset: sorted tuple of candidate indices; signs: dict cand index -> +1/-1;
+    passive: tuple of (cluster key, position): a passive observation is inserted before the
+    active member `position` of that cluster (position = cluster size: after the last one)"""
     pts = [p.copy() for p in T.points]
     clusters = {}
     order = []
@@ -146,32 +191,43 @@ def build_net(T, subset, signs, params):
             order.append(key)
         clusters[key].obs.append(o)
     cl = [clusters[k] for k in order]
-    for c in cl:
-        if c.kind == "vectors":
-            n = c.dim()
-            assert n == 3
-            c.cov = gnet.band_cov(3, 2, lambda i, j: VEC_COV[i][j])
     net = Net(pts, cl, **params)
     gnet.fill_values(net)
+    for k, (key, pos) in enumerate(sorted(passive, key=lambda kp: (kp[0], kp[1]))):
+        o, pt = passive_obs(T, key, k + 1)
+        c = clusters[key]
+        act = [x for x in c.obs if not getattr(x, "passive", False)]
+        tgt = act[pos] if pos < len(act) else None
+        at = c.obs.index(tgt) if tgt is not None else len(c.obs)
+        c.obs.insert(at, o)
+        net.points.append(pt)
+    for c in cl:
+        if c.kind == "vectors":
+            c.cov = vec_cov(len(c.obs))
     return net
 
 
 # ---------------------------------------------------------------- reference model
 def scalar_rows(net):
-    """list of rows: dict(key, o, comp, cluster index, sigma or None, angular)"""
+    """rows of the ACTIVE observations: dict(key, o, comp, cluster index, position among all
+    scalar components of the cluster, sigma or None, angular)"""
     rows = []
     for ci, c in enumerate(net.clusters):
+        pos = 0
         for o in c.obs:
+            if getattr(o, "passive", False):
+                pos += o.dim(); continue
             if o.kind == "vec":
                 for j, t in enumerate(("dx", "dy", "dz")):
-                    rows.append({"key": (t, o.frm, o.to), "o": o, "comp": j, "ci": ci, "sigma": None, "ang": False})
+                    rows.append({"key": (t, o.frm, o.to), "o": o, "comp": j, "ci": ci, "pos": pos + j, "sigma": None, "ang": False})
             elif o.kind == "angle":
-                rows.append({"key": ("angle", o.frm, o.bs, o.fs), "o": o, "comp": None, "ci": ci,
+                rows.append({"key": ("angle", o.frm, o.bs, o.fs), "o": o, "comp": None, "ci": ci, "pos": pos,
                              "sigma": o.stdev if c.cov is None else None, "ang": True})
             else:
-                rows.append({"key": (TAG[o.kind], o.frm, o.to), "o": o, "comp": None, "ci": ci,
+                rows.append({"key": (TAG[o.kind], o.frm, o.to), "o": o, "comp": None, "ci": ci, "pos": pos,
                              "sigma": o.stdev if c.cov is None else None,
                              "ang": o.kind in ("direction", "z-angle", "azimuth")})
+            pos += o.dim()
     return rows
 
 
@@ -260,11 +316,13 @@ def cluster_weights(net, rows):
                 blocks.append(([k], [[1.0 / rows[k]["sigma"] ** 2]]))
         else:
             band, rws = c.cov
-            n = len(idx)
-            Cm = [[0.0] * n for _ in range(n)]
+            nf = len(rws)
+            Cf = [[0.0] * nf for _ in range(nf)]
             for i, rw in enumerate(rws):
                 for j, v in enumerate(rw):
-                    Cm[i][i + j] = Cm[i + j][i] = v
+                    Cf[i][i + j] = Cf[i + j][i] = v
+            sel = [rows[k]["pos"] for k in idx]                   # covariance of the active members
+            Cm = [[Cf[a][b] for b in sel] for a in sel]
             Ci, _ = inv_spd(Cm)
             blocks.append((idx, Ci))
     return blocks
@@ -293,7 +351,7 @@ def datum_null(net, labels, C0):
     Empty when a point is fixed.  Frame: x north, y east, bearings clockwise."""
     if any(p.xy == "fix" for p in net.points) or not any(p.xy in ("adj", "con") for p in net.points):
         return []
-    if any(p.zs in ("adj", "con") for p in net.points):
+    if any(p.zs in ("adj", "con") and p.z is not None for p in net.points):
         raise NotImplementedError("free 3-D networks are not part of C09")
     G = [[1.0 if c == "x" else 0.0 for (_, c) in labels],
          [1.0 if c == "y" else 0.0 for (_, c) in labels]]
@@ -303,7 +361,7 @@ def datum_null(net, labels, C0):
         elif c == "y": rot.append(C0[pid][0] * 1e3)
         else: rot.append(gnet.R2G * 1e4)
     G.append(rot)
-    has_scale = any(o.kind in ("distance", "s-distance", "vec", "coord") for c in net.clusters for o in c.obs)
+    has_scale = any(o.kind in ("distance", "s-distance", "vec", "coord") and not getattr(o, "passive", False) for c in net.clusters for o in c.obs)
     if not has_scale:
         G.append([C0[pid][0] * 1e3 if c == "x" else (C0[pid][1] * 1e3 if c == "y" else 0.0) for (pid, c) in labels])
     return G
@@ -371,10 +429,10 @@ def ref_labels(net):
     """unknowns of the reference model (order irrelevant for counting)"""
     L = []
     for p in net.points:
-        if p.xy in ("adj", "con"): L += [(p.id, "x"), (p.id, "y")]
-        if p.zs in ("adj", "con"): L += [(p.id, "z")]
+        if p.xy in ("adj", "con") and p.x is not None: L += [(p.id, "x"), (p.id, "y")]
+        if p.zs in ("adj", "con") and p.z is not None: L += [(p.id, "z")]
     for c in net.clusters:
-        if c.kind == "obs" and c.frm is not None and any(o.kind == "direction" for o in c.obs):
+        if c.kind == "obs" and c.frm is not None and any(o.kind == "direction" and not getattr(o, "passive", False) for o in c.obs):
             L.append((c.frm, "o"))
     return L
 
@@ -382,7 +440,7 @@ def ref_labels(net):
 def single_direction_set(net):
     for c in net.clusters:
         if c.kind == "obs":
-            n = len({o.to for o in c.obs if o.kind == "direction"})
+            n = len({o.to for o in c.obs if o.kind == "direction" and not getattr(o, "passive", False)})
             if n == 1: return True
     return False
 
@@ -423,6 +481,24 @@ def lattice(T):
         frontier = nxt
     nodes = sorted((s for s in status if status[s] == "exec"), key=lambda s: (-len(s), s))
     return nodes, edges, status
+
+
+def variants(T):
+    """passive-observation variants of the full template: for every cluster one passive
+    observation at every position (before member 0 .. after the last member) and every
+    pair of positions for two passive observations (equal positions = adjacent)"""
+    keys = []
+    for c in T.cand:
+        if c["cl"] not in keys: keys.append(c["cl"])
+    out = []
+    for key in keys:
+        n = sum(1 for c in T.cand if c["cl"] == key)
+        for p1 in range(n + 1):
+            out.append(((key, p1),))
+        for p1 in range(n + 1):
+            for p2 in range(p1, n + 1):
+                out.append(((key, p1), (key, p2)))
+    return out
 
 
 def patterns(T, subset):
@@ -739,7 +815,9 @@ def oracle(net, R, text, info=None):
         if not close(d["stdev"], st_ref, 2e-6, 1e-9):
             V.add("obs", "stdev", "%s stdev %r reference m0*sqrt(q_L) %r (m0 %r q_h %r)" % (nm, d["stdev"], st_ref, m0, qh))
         qrr_ref = max(0.0, (1.0 - qh) / p)
-        if not close(d["qrr"], qrr_ref, 2e-6, 0.5e-3 + 1e-9):
+        # q_h is known to 2e-6 relative (reference Jacobian at the printed linearisation point);
+        # that uncertainty enters qrr = (1 - q_h)/p scaled by 1/p, which is huge for small sigma-apr
+        if not close(d["qrr"], qrr_ref, 2e-6, 0.5e-3 + 1e-9 + 2e-6 * qh / p):
             V.add("obs", "qrr", "%s qrr %r reference 1/p - q_L = %r (p %r q_h %r)" % (nm, d["qrr"], qrr_ref, p, qh))
         f_ref = 100.0 * abs(1.0 - math.sqrt(max(qh, 0.0)))
         if not close(d["f"], f_ref, 2e-6, 0.5e-3 + 2e-4):
